@@ -1,5 +1,5 @@
 (* Properties/C15.v — rejected builder calls have no effect; no dangling ids (C15) *)
-From HpoV Require Import Model.Base Model.Dump Run.World Run.Ser Run.C15 Proofs.C15P.
+From HpoV Require Import Gen.Consts Model.Base Model.Group Model.Onto Model.Dump Model.Script Run.World Run.Ser Run.C15 Proofs.C15P Proofs.ScriptP Proofs.ClosureP.
 
 Theorem C15_referentially_closed : forall d, ref_closed d = true ->
   (forall t, In t (do_terms d) ->
@@ -14,5 +14,33 @@ Proof. exact ref_closed_sound. Qed.
 Theorem C15_same_observation : forall a b, res_donto_eqb a b = true -> ser_res a = ser_res b.
 Proof. exact res_donto_eqb_sound. Qed.
 
+(* ---- about the Gallina transcription of the Builder (Model/Onto.v, Model/Script.v) ---- *)
+
+(* a history of add_parent calls, some of which fail: the builder ends in exactly the state that
+   the successful calls alone produce, and those all succeed again (for EVERY history) *)
+Theorem C15_model_failed_add_parent_no_trace : forall (ops : list (N * N)) o0 o' codes,
+  run_ops (fun o (pc : N * N) => step_keep (b_add_parent (fst pc) (snd pc) o) o) ops o0 = Ok (o', codes) ->
+  length codes = length ops /\
+  exists zs, run_ops (fun o (pc : N * N) => step_keep (b_add_parent (fst pc) (snd pc) o) o)
+                     (fst (keep_ok ops codes)) o0 = Ok (o', zs) /\ Forall (fun c => c = 0) zs.
+Proof. exact failed_add_parent_calls_leave_no_trace. Qed.
+
+(* the same for histories of add_gene / add_*_disease / annotate_* calls *)
+Theorem C15_model_failed_annotate_no_trace : forall (ops : list annot_op) o0 o' codes,
+  run_ops run_annot_op ops o0 = Ok (o', codes) ->
+  length codes = length ops /\
+  exists zs, run_ops run_annot_op (fst (keep_ok ops codes)) o0 = Ok (o', zs) /\ Forall (fun c => c = 0) zs.
+Proof. exact failed_annotate_calls_leave_no_trace. Qed.
+
+(* no dangling link: after any successful add_parent every parent id resolves, ids stay unique and
+   children stay the exact inverse of parents (the failing variant returns Err before touching
+   either term) *)
+Theorem C15_model_add_parent_keeps_links_resolving : forall o parent child o', binv (o_arena o) ->
+  b_add_parent parent child o = Ok o' -> binv (o_arena o').
+Proof. exact add_parent_keeps_binv. Qed.
+
 Print Assumptions C15_referentially_closed.
 Print Assumptions C15_same_observation.
+Print Assumptions C15_model_failed_add_parent_no_trace.
+Print Assumptions C15_model_failed_annotate_no_trace.
+Print Assumptions C15_model_add_parent_keeps_links_resolving.
